@@ -84,7 +84,7 @@ fn run(args: Args) {
     let maxbytes = args.u64("maxbytes", 3000) as usize;
     let large = args.u64("large", 20000) as usize;
     let mut tr = Trace::create(&args.pos[1]);
-    let mut q = Q { tr: &mut tr };
+    let mut q = Q { tr: &mut tr, wrap: true };
     let (mut njson, mut nbytes, mut nparts, mut total_bytes, mut cut) = (0usize, 0usize, 0usize, 0usize, 0usize);
     let mut nlarge = 0;
     for i in 0..docs {
